@@ -490,13 +490,32 @@ def noise_env():
             "HOME": h, "USER": "nobody", "TMPDIR": tempfile.gettempdir(), "GIT_DIR": os.path.join(h, "no-such-git-dir")}
 
 
-def run_cmd(argv, cwd=None, stdin=b"", env=None, timeout=60):
+def limited(argv, nofile=None, as_nobody=False):
+    """argv wrapped so that it runs under a lowered open-file limit and/or as an unprivileged user that owns nothing
+    (uid/gid 65534; only when this process is root and setpriv exists, otherwise unchanged). Platform limits are part of
+    "every input": a command that keeps one descriptor per listed file or per tracker, or that opens content in a way only
+    its owner may, works in every test and fails on a large torrent or a shared download directory (seeded changes C02-10,
+    C02-11, C03-11, C12-11)."""
+    argv = list(argv)
+    if as_nobody and can_drop_privileges():
+        argv = ["setpriv", "--reuid=65534", "--regid=65534", "--clear-groups"] + argv
+    if nofile:
+        argv = ["sh", "-c", 'ulimit -n %d && exec "$@"' % int(nofile), "sh"] + argv
+    return argv
+
+
+def can_drop_privileges():
+    return os.geteuid() == 0 and shutil.which("setpriv") is not None
+
+
+def run_cmd(argv, cwd=None, stdin=b"", env=None, timeout=60, nofile=None, as_nobody=False):
     """Run the real binary (or anything): (returncode, stdout bytes, stderr bytes). A negative
     returncode is a terminating signal."""
     e = {"PATH": os.environ.get("PATH", ""), "RUST_BACKTRACE": "0"}
     e.update(noise_env())
     if env:
         e.update(env)
+    argv = limited(argv, nofile, as_nobody)
     try:
         p = subprocess.run(argv, cwd=cwd, input=stdin, stdout=subprocess.PIPE, stderr=subprocess.PIPE,
                            env=e, timeout=timeout)
@@ -735,8 +754,9 @@ class Ctx:
     def model(self, lines, nproc=NCPU, timeout=1200):
         return run_lines(self.modelrun, lines, nproc, timeout, big_stack=True)
 
-    def imdl(self, args, cwd=None, stdin=b"", env=None, timeout=60):
-        return run_cmd([self.bins["imdl"]] + list(args), cwd=cwd, stdin=stdin, env=env, timeout=timeout)
+    def imdl(self, args, cwd=None, stdin=b"", env=None, timeout=60, nofile=None, as_nobody=False):
+        return run_cmd([self.bins["imdl"]] + list(args), cwd=cwd, stdin=stdin, env=env, timeout=timeout,
+                       nofile=nofile, as_nobody=as_nobody)
 
     # -- finish ------------------------------------------------------------
     def finish(self, rule, trusted_base, level="proof", exhaustive=False, extra=None):
